@@ -60,7 +60,7 @@ RuleClassification = DefaultDict[
 EqPathTracker = DefaultDict[
     Tuple[int, int],
     DefaultDict[
-        Tuple[int, int],
+        Tuple[int, int, int, int],
         Dict[Tuple[Tuple[int, ...], Tuple[int, ...]], bool],
     ],
 ]
@@ -804,7 +804,9 @@ class EqPathParallelSpecFinder(
         this path match.
         """
         children = (sp1[id1], sp2[id2])
-        children_cache = cache[(id1, id2)][(pid1, pid2)]
+        # The paths depend on which children of the parents we came through: two
+        # children of one rule may share their equivalence labels.
+        children_cache = cache[(id1, id2)][(pid1, pid2, idx1, idx2)]
         if children not in children_cache:
             path1 = EquivalenceRuleExtractor(
                 self._pi1.root_eq_label,
